@@ -237,11 +237,14 @@ func runC16(cs *c16Case, seed uint64) {
 			report(i, api, "error")
 		}
 	}
+	// sub-generators are derived before any goroutine starts (r itself is not shared)
+	wrSeed, frSeed, mrSeed := r.next(), r.next(), r.next()
+	rdSeeds := []uint64{r.next(), r.next(), r.next()}
 	// writer
 	wg.Add(1)
 	go func() {
 		defer wg.Done()
-		wr := &rng{s: r.next()}
+		wr := &rng{s: wrSeed}
 		for i := range objs {
 			if stop.Load() {
 				return
@@ -272,7 +275,7 @@ func runC16(cs *c16Case, seed uint64) {
 	}()
 	// readers
 	for k := 0; k < 3; k++ {
-		rr := &rng{s: r.next()}
+		rr := &rng{s: rdSeeds[k]}
 		wg.Add(1)
 		go func() {
 			defer wg.Done()
@@ -324,7 +327,7 @@ func runC16(cs *c16Case, seed uint64) {
 	wg.Add(1)
 	go func() {
 		defer wg.Done()
-		fr := &rng{s: r.next()}
+		fr := &rng{s: frSeed}
 		for !stop.Load() && cs.Explicit {
 			time.Sleep(time.Duration(5+fr.intn(40)) * time.Millisecond)
 			gate.RLock()
@@ -338,7 +341,7 @@ func runC16(cs *c16Case, seed uint64) {
 		wg.Add(1)
 		go func() {
 			defer wg.Done()
-			mr := &rng{s: r.next()}
+			mr := &rng{s: mrSeed}
 			for !stop.Load() {
 				time.Sleep(time.Duration(20+mr.intn(80)) * time.Millisecond)
 				if cs.Reopen && mr.chance(1, 3) {
